@@ -88,6 +88,9 @@ pub enum PatList {
     /// (selects the packed prefilter through the 'no start/rare prefilter'
     /// fallback; exercises ordering of equal patterns in larger sets)
     MidPacked { raws: Vec<Vec<u8>>, dups: Vec<(u16, u16)> },
+    /// long patterns (>= 64 bytes) that are proper prefixes / suffixes of
+    /// each other, in generated order, plus a few short companions
+    LongNested { base: Vec<u8>, cuts: Vec<(u16, bool)>, extra: Vec<Vec<u8>>, rotate: u8 },
 }
 
 #[derive(Clone, Copy, Debug)]
@@ -213,6 +216,8 @@ fn shaped_list() -> BoxedStrategy<PatList> {
         4 => vec(vec(any::<u8>(), 2..=8), 3..=16).prop_map(PatList::Packedish),
         3 => (vec(vec(any::<u8>(), 2..=6), 14..=50), vec((any::<u16>(), any::<u16>()), 1..=12))
             .prop_map(|(raws, dups)| PatList::MidPacked { raws, dups }),
+        2 => (vec(any::<u8>(), 70..=140), vec((any::<u16>(), any::<bool>()), 1..=4), vec(vec(any::<u8>(), 2..=6), 0..=4), any::<u8>())
+            .prop_map(|(base, cuts, extra, rotate)| PatList::LongNested { base, cuts, extra, rotate }),
         // around the packed searcher's 128-pattern limit and beyond
         1 => (vec(vec(any::<u8>(), 2..=5), 120..=200), vec((any::<u16>(), any::<u16>()), 0..=4))
             .prop_map(|(raws, dups)| PatList::MidPacked { raws, dups }),
@@ -221,18 +226,19 @@ fn shaped_list() -> BoxedStrategy<PatList> {
 }
 
 fn adversarial_list() -> BoxedStrategy<PatList> {
-    (0u8..6, 1u8..=24, 1u8..=12)
+    (0u8..6, prop_oneof![4 => 1u8..=24, 1 => 25u8..=48], prop_oneof![4 => 1u8..=12, 1 => 13u8..=48])
         .prop_map(|(kind, k, n)| PatList::Adversarial { kind, k, n })
         .boxed()
 }
 
 fn fanout_list() -> BoxedStrategy<PatList> {
     (
-        vec(any::<u8>(), 0..=2),
+        vec(any::<u8>(), 0..=4),
         // boundary values of the contiguous NFA's sparse/dense encodings
         prop_oneof![
             3 => 2u16..=12,
-            2 => 13u16..=125,
+            2 => 13u16..=32,
+            3 => 33u16..=125,
             4 => 126u16..=129,
             2 => 130u16..=252,
             4 => 253u16..=256,
@@ -413,6 +419,25 @@ pub fn realize_patterns(list: &PatList, alpha: &[u8]) -> Vec<Vec<u8>> {
             }
             out
         }
+        PatList::LongNested { base, cuts, extra, rotate } => {
+            let full = alphabet(ALPHA_TEXT);
+            let a: &[u8] = if alpha.len() >= 4 { alpha } else { &full };
+            let base = map_bytes(a, base);
+            let mut out = vec![base.clone()];
+            for (c, suffix) in cuts {
+                // a proper prefix (or suffix) of at least 64 bytes
+                let keep = 64 + idx(*c, base.len() - 64);
+                if *suffix {
+                    out.push(base[base.len() - keep..].to_vec());
+                } else {
+                    out.push(base[..keep].to_vec());
+                }
+            }
+            out.extend(extra.iter().map(|r| map_bytes(a, r)));
+            let n = out.len();
+            out.rotate_left(*rotate as usize % n);
+            out
+        }
         PatList::Fanout { prefix, n, start, tails } => {
             let prefix = map_bytes(alpha, prefix);
             (0..*n as usize)
@@ -530,7 +555,18 @@ pub fn realize_haystack(
         _ => 300,
     };
     for p in pieces {
-        let pat: &[u8] = if pats.is_empty() { b"" } else { &pats[idx(p.idx, pats.len())] };
+        // boundary bias: the last and the first pattern of the list are drawn
+        // more often than the others (largest / smallest child of a fan-out
+        // node, last pattern id, ...)
+        let pat: &[u8] = if pats.is_empty() {
+            b""
+        } else {
+            match p.a % 8 {
+                0 => &pats[pats.len() - 1],
+                1 => &pats[0],
+                _ => &pats[idx(p.idx, pats.len())],
+            }
+        };
         match p.kind {
             2 if !pat.is_empty() => h.extend_from_slice(pat),
             4 if pat.len() >= 2 => h.extend_from_slice(&pat[..1 + idx(p.a, pat.len() - 1)]),
@@ -753,6 +789,7 @@ pub fn search_case(o: SearchOpts) -> BoxedStrategy<Case> {
                 PatList::Adversarial { .. } => "adversarial",
                 PatList::Fanout { .. } => "fanout",
                 PatList::MidPacked { .. } => "midpacked",
+                PatList::LongNested { .. } => "longnested",
             };
             Case {
                 prop: prop.to_string(),
